@@ -139,6 +139,11 @@ func c18Driver(d *fw.D) {
 	if got, want := d.Counters["expansion_programs_compared"], int64(c18ExpansionCases(d.Tier)/2); got < want {
 		d.Inconclusive(fmt.Sprintf("family expansion-position: %d programs were compared with the model, at least %d expected", got, want))
 	}
+	for _, sp := range []string{"root-is-tail-of-quoted-literal", "value-shared-with-earlier-expansion"} {
+		if d.Counters["expansion_special_programs:"+sp] == 0 {
+			d.Inconclusive("family expansion-position: no program of the sub-class " + sp)
+		}
+	}
 	if got := len(d.Sets["expansion_slots_compared"]); got != len(c18XSlots) {
 		d.Inconclusive(fmt.Sprintf("family expansion-position: %d of %d slots produced a judged program", got, len(c18XSlots)))
 	}
@@ -269,9 +274,12 @@ func c18Run(w *fw.W, idx int) {
 			return k + hw.suffix()
 		}
 		if ex != nil {
-			return k + ex.suffix()
+			return ex.key(k)
 		}
 		return k
+	}
+	if ex != nil && ex.special != "" {
+		w.Count("expansion_special_programs:"+ex.special, 1)
 	}
 
 	in := refint.New()
